@@ -41,6 +41,7 @@ type Contract struct {
 	inline   bool
 	trusted  bool
 	nopanic  []string // property ids claiming the safe.* obligations
+	allocs   []*Clause // allocation bounds checked at every make([]T, n) site
 	panics   *Clause  // allowed panic condition
 	lets     []letDef
 	ghosts   []string
@@ -73,6 +74,7 @@ type ContractSet struct {
 
 var reClause = regexp.MustCompile(`^(requires|ensures|assume)(\[[A-Za-z0-9, ]*\])?\s+(?:@([A-Za-z0-9_.]+)\s+)?(.*)$`)
 var reLoop = regexp.MustCompile(`^loop\s+(\d+)\s+(invariant|decreases)(\[[A-Za-z0-9, ]*\])?\s+(?:@([A-Za-z0-9_.]+)\s+)?(.*)$`)
+var reAlloc = regexp.MustCompile(`^allocbound(\[[A-Za-z0-9, ]*\])\s+(.*)$`)
 
 func parseIDs(s string) []string {
 	s = strings.Trim(s, "[]")
@@ -216,6 +218,13 @@ func (cs *ContractSet) LoadFile(pkgPath, path string) error {
 				}
 				c := &Clause{kind: "panics", text: strings.TrimSpace(strings.TrimPrefix(t, "panics when ")), line: ln + 1}
 				cur.panics = c
+				last = c
+			} else if m := reAlloc.FindStringSubmatch(t); m != nil {
+				if err := finish(); err != nil {
+					return err
+				}
+				c := &Clause{kind: "allocbound", ids: parseIDs(m[1]), text: m[2], line: ln + 1}
+				cur.allocs = append(cur.allocs, c)
 				last = c
 			} else if strings.HasPrefix(t, "nopanic") {
 				if err := finish(); err != nil {
